@@ -95,6 +95,15 @@ pub fn check_children(c: &Cell, target: i32) -> Result<Vec<u64>, String> {
 fn check_case(case: &Case, st: &mut Stats) -> Result<(), String> {
     let c = case.spec.cell();
     let id = codec::encode(&c);
+    // In a quarter of the cases a request that must be refused (more than 4^20 children) comes first on
+    // this thread: a refusal must not leave anything behind that changes the next answer.
+    if case.pick % 4 == 0 {
+        let coarse = if case.a % 2 == 0 { Cell::WORLD } else { Cell::base(case.b % 12) };
+        match a5::cell_to_children(codec::encode(&coarse), Some(29)) {
+            Err(_) => st.hit("refused-request-first"),
+            Ok(v) => return Err(format!("cell_to_children({:#x}, 29) returned {} cells instead of refusing", codec::encode(&coarse), v.len())),
+        }
+    }
     let mt = max_target(&c);
     let target = (c.res + case.delta as i32).min(mt);
     let kids = check_children(&c, target)?;
